@@ -287,15 +287,15 @@ def lostSegmentHandling (off len : Nat) : DM Unit := do
 def vfsWriteData (name : String) (data : List UInt8) (off : Nat) : DM (Option FsErr) := do
   let s ← get
   match s.rejects with
-  | e :: rest =>
-    set { s with rejects := rest }
-    return some e
+  | e :: _ =>
+    modify fun s => { s with rejects := s.rejects.tail }
+    pure (some e)
   | [] =>
     match Fs.writeData s.fs name data off with
-    | .error e => return some e
+    | .error e => pure (some e)
     | .ok fs' =>
-      set { s with fs := fs' }
-      return none
+      modify fun s => { s with fs := fs' }
+      pure none
 
 /-- `_handle_fd_pdu` (dest.py:816-855) -/
 def handleFdPdu (env : Env) (off : Nat) (data : List UInt8) : DM Unit := do
@@ -671,10 +671,10 @@ def stateMachine (env : Env) (pkt : Option Pdu) : DM Unit :=
 def getNextPacket : DM (Option Pdu) := do
   let s ← get
   match s.queue with
-  | [] => return none
-  | pdu :: rest =>
-    set { s with queue := rest, numReady := s.numReady - 1 }
-    return some pdu
+  | [] => pure none
+  | pdu :: _ =>
+    modify fun s => { s with queue := s.queue.tail, numReady := s.numReady - 1 }
+    pure (some pdu)
 
 /-- `cancel_request` (dest.py:464-491) -/
 def cancelRequest (env : Env) (tid : Tid) : DM Bool := do
